@@ -218,7 +218,12 @@ def handleOp (st : DSt) (line : String) : String :=
      | none => "bad-request")
   | ["trimp", d, p] =>
     (match parseDesc d, bytesOfHex p with
-     | some s, some p => spaced ([trimOp U s (some p), trimStartOp U s (some p), trimEndOp U s (some p)].map resStr)
+     | some s, some p =>
+       let r := [trimOp U s (some p), trimStartOp U s (some p), trimEndOp U s (some p)]
+       let sp := [Res.str (trimMatchesB p s.bytes), Res.str (trimStartMatchesB p s.len s.bytes),
+                  Res.str (trimEndMatchesB p s.bytes)]
+       let ok := r.map resStr == sp.map resStr
+       spaced (r.map resStr) ++ (if ok then "" else " !spec:trimp")
      | _, _ => "bad-request")
   | ["pat", d, p] =>
     (match parseDesc d, bytesOfHex p with
